@@ -12,6 +12,7 @@ CHECKS = {
     "C06": {
         "pkgs": ["./pkg/netceptor"],
         "schedule_harnesses": ["Verif_C06_concurrent_deliveries"],
+        "thorough": {"maxpaths": 400000},
         "bounds": "one update (and one re-delivery) from an arbitrary node state over the universe {A=self,B,C,D}; epochs, sequences, "
                   "costs arbitrary 64-bit/real values; 7 edges with symbolic presence; update lists <= 3 neighbours",
         "assumptions": ["update IDs are unique per update (8 random characters)", "float costs encoded as reals"],
@@ -66,12 +67,18 @@ CHECKS = {
         "schedule_harnesses": ["Verif_C18_close_during_advertisement_pass"],
         "bounds": "one advertisement/withdrawal with arbitrary timestamp, type, tag against a table that holds / does not hold / has seen withdrawn "
                   "the same or another (node, service); two and three messages about one service with distinct timestamps in every delivery order; "
-                  "one local advertised listener opened and closed through the real API",
-        "assumptions": ["origin timestamps of different messages about one service are distinct (nanosecond clock of one owner)"],
-        "outside": ["network-wide convergence of the flooding", "clock skew between owners (timestamps of one service come from one owner)"],
+                  "one local advertised listener opened and closed through the real API; MESH: three real nodes in a line (real runProtocol, in-order "
+                  "sessions, real flooding), the owner's service opened before/after the third node joined, the relay replaced by a fresh node or not, "
+                  "0-2 advertisement periods in between, the service closed or not, one final period; one (run-to-block) interleaving",
+        "assumptions": ["origin timestamps of different messages about one service are distinct (nanosecond clock of one owner)",
+                        "mesh harness: tick runners replaced by a pump that serves a request at the next round; clock readings strictly increasing"],
+        "outside": ["network-wide convergence beyond the 3-node line of the mesh harness (other topologies, delivery interleavings, node death - advertisements "
+                    "of a node that disappeared are not purged by the code and the property does not quantify over node stops)",
+                    "clock skew between owners (timestamps of one service come from one owner)"],
         "level_text": "Bounded symbolic execution of handleServiceAdvertisement, Add/RemoveLocalServiceAdvertisement, sendServiceAds and the socket "
                       "open/close path: a message not newer than what is known (record or withdrawal) changes nothing and is not relayed, a newer one "
-                      "replaces/removes the record and is relayed once, not back; any delivery order of 2-3 messages ends as the latest one alone.",
+                      "replaces/removes the record and is relayed once, not back; any delivery order of 2-3 messages ends as the latest one alone; "
+                      "in a 3-node line every node ends up listing the owner's service iff it is open, for every bounded history.",
         "level_note": _TRUST,
     },
     "C12": {
@@ -122,8 +129,8 @@ CHECKS = {
         "level_note": _TRUST,
     },
     "C20": {
-        "pkgs": ["./pkg/utils", "./pkg/netceptor"],
-        "no_native": ["Verif_C20_only_the_leaf_names_the_peer"],
+        "pkgs": ["./pkg/utils", "./pkg/netceptor", "./pkg/certificates"],
+        "no_native": ["Verif_C20_only_the_leaf_names_the_peer", "Verif_C20_request_names_exactly_what_was_asked"],
         "bounds": {
             "quick": "0..2 node IDs; one ID: lengths {0,1,2,50,110..116,127,128,129,200,240..244,255,256,300}, two IDs: lengths from {1,112,113,128,256}; "
                      "first/last content byte arbitrary ASCII; 0..1 DNS name (2 bytes), 0..1 IPv4/IPv6 address (arbitrary bytes)",
@@ -145,7 +152,8 @@ CHECKS = {
                   "at any operation, then the real restart scan; restart on a record in each of the 5 states; status query for a unit only on disk; "
                   "restart scan of a Pending/Running unit while its live runner rewrites the record (2 pre-emptions, every file-system operation a "
                   "scheduling point)",
-        "no_native": ["Verif_C04_rewrite_crash_index", "Verif_C04_acked_unit_survives", "Verif_C04_remote_binding_survives"],
+        "no_native": ["Verif_C04_rewrite_crash_index", "Verif_C04_acked_unit_survives", "Verif_C04_remote_binding_survives",
+                      "Verif_C04_remote_binding_recorded_before_input_is_sent"],
         "crash_native": {"Verif_C04_rewrite_crash_index": "native/c04_crash.py"},
         "schedule_harnesses": ["Verif_C04_rescan_while_runner_writes"],
         "assumptions": ["file-system model: every state-changing operation (create, truncate, write, mkdir, remove) is atomic (process kill, not power loss)",
@@ -162,7 +170,7 @@ CHECKS = {
         "pkgs": ["./pkg/workceptor"],
         "bounds": "2 independent writers + 1 reader on one status file, and 2 daemon goroutines sharing one unit + the runner process, every "
                   "file-system operation a scheduling point, 2 pre-emptions; arbitrary numeric increments",
-        "schedule_harnesses": ["Verif_C14_rmw_serialisable", "Verif_C14_shared_unit", "Verif_C14_rescan_while_runner_writes"],
+        "schedule_harnesses": ["Verif_C14_rmw_serialisable", "Verif_C14_shared_unit", "Verif_C14_rescan_while_runner_writes", "Verif_C14_stdout_size_vs_state_writer"],
         "assumptions": ["lockedfile model: exclusive advisory lock per open file description, blocking, released on close"],
         "outside": ["real flock semantics on network file systems", "more than 3 concurrent actors", "schedules needing more than 2 pre-emptions"],
         "level_text": "Bounded symbolic execution with schedule exploration of the real UpdateFullStatus/UpdateBasicStatus/Load/Save on the "
@@ -190,7 +198,7 @@ CHECKS = {
         "bounds": "one command of each kind (submit, cancel, release, force-release, results) x connection kind {unix, tcp, \"\", unixgram, mesh} x "
                   "verifying / non-verifying type x signature {absent, empty, token} x key {unset, set, unloadable} x token verdict {error, "
                   "not valid, valid} x audience {none, [A], [B], [B,A], [\"\"], [a]} - exhaustive over this finite shape (6300 paths)",
-        "no_native": ["Verif_C15_gate", "Verif_C15_gate_sequence"],
+        "no_native": ["Verif_C15_gate", "Verif_C15_gate_sequence", "Verif_C15_remote_signed_unit"],
         "assumptions": ["golang-jwt ParseWithClaims and certificates.LoadPublicKey replaced by verdict models (the JWT library's signature, expiry and "
                         "algorithm checks are trusted)"],
         "outside": ["the JWT library itself (signature verification, expiry evaluation, algorithm confusion)", "key file parsing",
@@ -202,6 +210,7 @@ CHECKS = {
     },
     "C19": {
         "pkgs": ["./pkg/workceptor"],
+        "no_native": ["Verif_C19_remote_refusal_discloses_nothing"],
         "bounds": "remote submission with 1-3 parameters whose names are arbitrary printable-ASCII strings of 8, 7 and 3 bytes (every letter case "
                   "of secret_x and secret_), arbitrary 1-byte values, with / without a TLS client profile; status, list and status-after-restart",
         "assumptions": ["parameter names are ASCII (Unicode case folding outside the claim)"],
@@ -247,6 +256,7 @@ CHECKS = {
         },
         "common": {"maxpaths": 400000, "witnesses": 1},
         "schedule_harnesses": ["Verif_C08_two_sessions"],
+        "no_native": ["Verif_C08_silent_client_does_not_block_others"],
         "assumptions": ["encoding/json replaced by the value-preserving blob model (a JSON line is one opaque object whose first byte is '{')",
                         "processes are not modelled (exec fails)"],
         "outside": ["unbounded line growth (memory)", "latency", "more than two concurrent sessions or more than 2 pre-emptions (two concurrent work "
